@@ -163,11 +163,18 @@ def run_case(case):
             settings = list(itertools.product(*[v for _, v in args]))
         else:
             cs = case["cases"]
-            fn_args = list(cs["args"])
+            case_args = list(cs["args"])
+            sub = case.get("subgrid") or []
+            fn_args = case_args + [a for a, _ in sub]
             cases_in = [tuple(c) for c in cs["cases"]]
+            sub_combos = ({a: list(v) for a, v in sub}
+                          if case.get("sub_spelling") == "dict" else
+                          tuple((a, list(v)) for a, v in sub)) if sub else None
             coords = {a: sorted(set(c[i] for c in cs["cases"]))
-                      for i, a in enumerate(fn_args)}
-            settings = list(cases_in)
+                      for i, a in enumerate(case_args)}
+            coords.update({a: list(v) for a, v in sub})
+            settings = [c + sv for c in cases_in for sv in
+                        itertools.product(*[v for _, v in sub])]
 
         # ------- pre-existing harvested data (both directories alike)
         pre = case.get("pre")
@@ -188,21 +195,33 @@ def run_case(case):
                     with under_test("pre-harvest"):
                         hp.harvest_cases(cases_in[:max(1, len(cases_in) -
                                                        pre["drop"])],
-                                         fn_args=tuple(fn_args), verbosity=0)
+                                         fn_args=tuple(case_args),
+                                         combos=sub_combos, verbosity=0)
 
         # ------- crop path
         bkw = {case["batch"][0]: case["batch"][1]} if case.get("batch") else {}
         models.LOG.clear()
         with under_test("sow"):
-            crop = fm.Crop(name="c6", parent_dir=main, **bkw)
+            if case.get("ctor_shuffle") and case["mode"] == "combos" and \
+                    farmer_kind != "sampler":
+                import xyzpy.gen.cropping as cropping
+                crop = cropping.Crop(farmer=fm, name="c6", parent_dir=main,
+                                     shuffle=case["ctor_shuffle"], **bkw)
+            else:
+                crop = fm.Crop(name="c6", parent_dir=main, **bkw)
             if farmer_kind == "sampler":
                 np.random.seed(case["np_seed"])
                 crop.sow_samples(case["n"], verbosity=0)
             elif case["mode"] == "combos":
-                crop.sow_combos(combos, shuffle=case.get("shuffle", False),
-                                verbosity=0)
+                if case.get("ctor_shuffle"):
+                    crop.sow_combos(combos, verbosity=0)   # no shuffle given
+                else:
+                    crop.sow_combos(combos, shuffle=case.get("shuffle",
+                                                             False),
+                                    verbosity=0)
             else:
-                crop.sow_cases(tuple(fn_args), cases_in, verbosity=0)
+                crop.sow_cases(tuple(case_args), cases_in,
+                               combos=sub_combos, verbosity=0)
         B = len(crops.batch_ids(main, "c6"))
         reloaded = False
         if case.get("reload_before_grow"):
@@ -265,7 +284,8 @@ def run_case(case):
                     ft.harvest_combos(combos, overwrite=case.get("overwrite"),
                                       verbosity=0)
                 else:
-                    ft.harvest_cases(cases_in, fn_args=tuple(fn_args),
+                    ft.harvest_cases(cases_in, fn_args=tuple(case_args),
+                                     combos=sub_combos,
                                      overwrite=case.get("overwrite"),
                                      verbosity=0)
                 want = ft.last_ds
@@ -274,8 +294,8 @@ def run_case(case):
                 if case["mode"] == "combos":
                     want = rt.run_combos(combos, verbosity=0, **kw)
                 else:
-                    want = rt.run_cases(cases_in, fn_args=tuple(fn_args),
-                                        verbosity=0, **kw)
+                    want = rt.run_cases(cases_in, fn_args=tuple(case_args),
+                                        combos=sub_combos, verbosity=0, **kw)
         except Exception as e:
             direct_exc = e
 
@@ -407,12 +427,23 @@ def strategy(draw):
         if mode == "combos":
             case["args"] = draw(gens.grid(1, 3, 3, mixed=False, names=names))
             case["shuffle"] = draw(st.sampled_from([False, True, 11]))
+            case["ctor_shuffle"] = draw(st.sampled_from([None, None, True,
+                                                         5]))
             N = 1
             for _, v in case["args"]:
                 N *= len(v)
         else:
-            case["cases"] = draw(gens.case_set(1, 3, 6, names=names))
+            case["cases"] = draw(gens.case_set(1, 2, 5, names=names))
             N = len(case["cases"]["cases"])
+            rest_ = [n for n in names if n not in case["cases"]["args"]]
+            k_ = draw(st.sampled_from([0, 0, 1, 2]))
+            subs_ = draw(st.lists(st.sampled_from(rest_), min_size=k_,
+                                  max_size=k_, unique=True))
+            case["subgrid"] = [[a, draw(gens.arg_values(1, 3, mixed=False))]
+                               for a in subs_]
+            case["sub_spelling"] = draw(st.sampled_from(["pairs", "dict"]))
+            for _, v_ in case["subgrid"]:
+                N *= len(v_)
     bt = draw(st.sampled_from(["default", "batchsize", "num_batches"]))
     if bt != "default":
         case["batch"] = [bt, draw(st.integers(1, N + 1))]
